@@ -399,10 +399,25 @@ class BSplineBasis:
                 new_knot = (new_knot - self.start()) % (self.end() - self.start()) + self.start()
         elif new_knot < self.start() or self.end() < new_knot:
             raise ValueError('new_knot out of range')
-        # mu is the index of last non-zero (old) basis function
-        mu = bisect_right(self.knots, new_knot)
         n = self.num_functions()
         p = self.order
+        T = self.end() - self.start()
+        if self.periodic >= 0 and n < p + self.periodic:
+            # too few functions for the modular indices below: refine the R-fold cover
+            # of the basis (R periods, R*n functions) at all R images of the knot
+            R = -(-(p + self.periodic) // n)
+            knots = list(self.knots)
+            for i in range((R - 1) * n):
+                knots.append(knots[-n] + T)
+            cover = BSplineBasis(p, knots, self.periodic)
+            C = np.tile(np.identity(n), (R, 1))
+            for i in range(R):
+                C = cover.insert_knot(new_knot) @ C
+                new_knot += T
+            self.knots = cover.knots[:len(self.knots) + 1]
+            return C[:n + 1]
+        # mu is the index of last non-zero (old) basis function
+        mu = bisect_right(self.knots, new_knot)
         if self.periodic >= 0:
             mu = min(mu, len(self.knots) - p) # the end of the domain is not passed
         C = np.zeros((n + 1, n))
